@@ -2,7 +2,9 @@ package props
 
 import (
 	"crypto/sha256"
+	"encoding/json"
 	"fmt"
+	"path/filepath"
 	"math/big"
 	"os"
 	"strings"
@@ -395,6 +397,7 @@ var c18CaseNo int
 func c18Compare(rt *rapid.T, what string, script []c18Op, traces []string) {
 	for i := 1; i < len(traces); i++ {
 		if traces[i] != traces[0] {
+			c18Witness(what, script, firstDiffLine(traces[0], traces[i]))
 			rt.Fatalf("C18 violated: execution %d of the same %s history differs from execution 0: %s\nscript: %v", i, what, firstDiffLine(traces[0], traces[i]), script)
 		}
 	}
@@ -461,4 +464,54 @@ func TestC18Rapid(t *testing.T) {
 		}
 		c.Done()
 	})
+}
+
+// A divergence between two executions of one script is a violation of C18 whether or not a
+// third execution shows it again (rapid would call that "flaky"): the witness - script and first
+// differing line - is written out by the check itself and announced on stdout for the driver.
+func c18Witness(what string, script []c18Op, diff string) {
+	dir := os.Getenv("VERIF_REPLAY_DIR")
+	if dir == "" {
+		dir = "."
+	}
+	_ = os.MkdirAll(dir, 0o755)
+	path := filepath.Join(dir, fmt.Sprintf("c18-witness-%d.json", c18CaseNo))
+	bz, _ := json.MarshalIndent(map[string]interface{}{"kind": "witness", "test": "TestC18Witness", "chain": what, "script": script, "first_difference": diff}, "", " ")
+	if err := os.WriteFile(path, bz, 0o644); err == nil {
+		fmt.Printf("NONDETERMINISM-WITNESS property=C18 file=%s\n", path)
+	}
+}
+
+// TestC18Witness re-executes the script of a saved witness (VERIF_CASE = path of the witness file)
+// twenty times and reports a divergence if one shows again.
+func TestC18Witness(t *testing.T) {
+	path := replayCase()
+	if path == "" {
+		return
+	}
+	bz, err := os.ReadFile(path)
+	if err != nil {
+		t.Fatal(err)
+	}
+	var w struct {
+		Chain  string  `json:"chain"`
+		Script []c18Op `json:"script"`
+	}
+	if err := json.Unmarshal(bz, &w); err != nil {
+		t.Fatal(err)
+	}
+	run := func() string {
+		if w.Chain == "L1" {
+			tr, _ := runL1Script(w.Script)
+			return tr
+		}
+		tr, _, _ := runL2Script(w.Script)
+		return tr
+	}
+	first := run()
+	for i := 1; i < 20; i++ {
+		if tr := run(); tr != first {
+			t.Fatalf("C18 violated: execution %d of the saved script differs from execution 0: %s", i, firstDiffLine(first, tr))
+		}
+	}
 }
